@@ -6,4 +6,5 @@ if ! lib/instr_build.sh harness/c04 "$w/bin" 2> "$w/build.log"; then
   cat "$w/build.log" >&2; echo "TOOL-ERROR: instrumented build failed" >&2; exit 2
 fi
 [ "${1:-}" = "--warm" ] && exit 0
+{ flock -u 9 && exec 9>&-; } 2>/dev/null  # the build is done: release the shared lock on /repo's working tree (.work/repo.lock)
 exec "$w/bin" "$@"
